@@ -18,6 +18,32 @@ def Status.ofName? : String → Option Status
   | "EXECUTION_COMPLETE" => some .executionComplete | "EXPIRED" => some .expired
   | "VIOLATION" => some .violation | _ => none
 
+/-- one step of the documented order lifecycle (the table the whole-run theorem `C03W.legal_transitions_whole_run` is about;
+    `none` = the order has no status yet): pending -> executable | complete; executable -> cancelling | updating | replacing |
+    complete; cancelling / updating / replacing -> executable | complete; complete stays complete; a new order may be refused
+    (violation) or, as a replacement whose placement is refused, complete at once; a refused order that never left may be
+    submitted or refused again.  Kept here, free of proof-library imports, so that the driver can answer `status.legal` -/
+def Status.legalStep : Option Status → Status → Bool
+  | none, .pending => true
+  | none, .violation => true
+  | none, .executionComplete => true
+  | some .pending, .executable => true
+  | some .pending, .executionComplete => true
+  | some .executable, .cancelling => true
+  | some .executable, .updating => true
+  | some .executable, .replacing => true
+  | some .executable, .executionComplete => true
+  | some .cancelling, .executable => true
+  | some .cancelling, .executionComplete => true
+  | some .updating, .executable => true
+  | some .updating, .executionComplete => true
+  | some .replacing, .executable => true
+  | some .replacing, .executionComplete => true
+  | some .executionComplete, .executionComplete => true
+  | some .violation, .pending => true
+  | some .violation, .violation => true
+  | _, _ => false
+
 inductive TradeStatus | pending | live | complete
   deriving DecidableEq, Repr, Inhabited
 
